@@ -66,6 +66,12 @@ def meta_cases():
     c['targets'] = dict(c['targets'], delegations=[{'name': 'd', 'keys': [4], 'thr': 1, 'table': [4], 'doc': {'version': 1, 'signers': [5], 'ntargets': 1}}])
     c['sn_meta'] = {'version': 3, 'delegated': {'d': {'version': 1}}}
     out.append(('delegated role d signed by a key its delegation does not list', scenario([base_root()], [c]), lambda r: r['cycles'][0]['ok'], 'meta'))
+    # consistent snapshots: the delegated role file is named by ITS listed version (1), which differs from the snapshot's (3) and the targets' (3)
+    c = cyc(3, consistent=True)
+    c['targets'] = dict(c['targets'], delegations=[{'name': 'd', 'keys': [4], 'thr': 1, 'table': [4], 'doc': {'version': 1, 'signers': [4], 'ntargets': 1}}])
+    c['sn_meta'] = {'version': 3, 'delegated': {'d': {'version': 1}}}
+    rc = base_root(); rc['consistent'] = True
+    out.append(('consistent snapshots: delegated role d listed and served at version 1 while snapshot and targets are at version 3', scenario([rc], [c]), lambda r: not r['cycles'][0]['ok'], 'meta'))
     c = cyc(3); c['ts_meta'] = {'version': 3, 'pin_len': True, 'len_delta': -10}
     out.append(('timestamp pins a length for snapshot.json that is 10 bytes too short', scenario([base_root()], [c]), lambda r: r['cycles'][0]['ok'], 'meta'))
     return out
